@@ -132,6 +132,8 @@ def candidate_models(eng, ob, params, entry: State, max_models=3):
             for a in ob.assumptions:
                 s.add(a)
         s.add(z3.Not(ob.goal))
+        for c in _fdiv_defs(list(ob.assumptions) + [ob.goal]):
+            s.add(c)
         if size is not None:
             e2 = entry.fork()
             for c in _bounds(params, e2, eng, size, big):
@@ -239,3 +241,41 @@ class Extractor:
 def extract_inputs(eng, model, params, entry):
     ex = Extractor(eng, model, entry)
     return {nm: ex.value(v) for nm, v in params.items() if not nm.startswith("$")}
+
+
+def extract_stubs(eng, model, final_state, entry):
+    """Return values of the modular calls made on the failing path, as the model chose them. The replay
+    substitutes them for the callees whose contract is only an assumed summary (stated in the replay file)."""
+    out = []
+    if final_state is None:
+        return out
+    ex = Extractor(eng, model, final_state)
+    for ev in final_state.trace:
+        if isinstance(ev, LoopSegment):
+            continue
+        if ev.target == "call" and getattr(ev, "modular", False) and getattr(ev, "result", None) is not None:
+            c = eng.reg.get(ev.key)
+            if c is None or not c.assumed:
+                continue
+            try:
+                out.append({"function": ev.key, "returns": ex.value(ev.result)})
+            except Exception:
+                pass
+    return out
+
+
+def _fdiv_defs(terms):
+    """Defining equations fdiv(x,y)*y == x for every application in the query (counter-model search only)."""
+    out, seen, stack = [], set(), list(terms)
+    while stack:
+        x = stack.pop()
+        if x.get_id() in seen:
+            continue
+        seen.add(x.get_id())
+        if z3.is_quantifier(x):
+            continue
+        if z3.is_app(x):
+            if x.decl().name() == "fdiv" and x.num_args() == 2 and not _has_bound(x):
+                out.append(z3.Implies(x.arg(1) != 0, x * z3.ToReal(x.arg(1)) == z3.ToReal(x.arg(0))))
+            stack.extend(x.children())
+    return out
